@@ -10,10 +10,16 @@ package network
 //@   check safety
 //@   requires l != nil && sl != nil
 //@   modifies *
+// The datagram loop hands each datagram to the server as a connection that owns its bytes (property C08,
+// stream intact): the buffer of the connection sent on the channel was allocated after the previous send
+// (a later datagram cannot overwrite one that its service has not read yet) and holds exactly the n bytes
+// this ReadFromUDP returned, from the start of the buffer read into.
 //@ func (*socketListener).Start$2
 //@   check safety
 //@   requires l != nil && sl != nil
 //@   modifies *
+//@   onsend [own-buffer] sincelastsend(val.Buffer)
+//@   onsend [the-datagram] len(val.Buffer) == n && 0 <= n
 //
 // Accept never fails (the server's accept loop panics on an error).
 //@ func (*socketListener).Accept
